@@ -120,8 +120,10 @@ class Spec:
                 ln = None
                 if o.loc and o.loc.rsplit(":", 1)[-1].isdigit():
                     ln = int(o.loc.rsplit(":", 1)[-1])
+                in_class = o.rule == "E-ATTR.shared-mutable" and any(
+                    k_.startswith(o.site + ".") for k_ in scope_keys.keys)
                 if scope_keys.covers(o.site, ln) or ":" not in o.site or \
-                        o.site.split(":", 1)[1] in ("module", ""):
+                        o.site.split(":", 1)[1] in ("module", "") or in_class:
                     real.obs.append(o)
                     real.rule_counts[o.rule] = \
                         real.rule_counts.get(o.rule, 0) + 1
